@@ -370,7 +370,8 @@ Proof.
   - destruct (has_prefix s_google_protobuf full); [exact I|].
     destruct (find_msg D full) as [m|] eqn:Ef; [|exact I].
     assert (Hm : In m (d_msgs D)) by (eapply find_msg_In; eauto).
-    destruct (lookup st (msg_key m)) as [en|] eqn:El; cbn [obind].
+    destruct (lookup st (msg_key m)) as [en|] eqn:El; [destruct (is_enum_entry en)|]; cbn [obind].
+    + exact I.
     + split; [exact HI|apply ext_refl].
     + assert (Hk : has_key st (msg_key m) = false) by (unfold has_key; rewrite El; reflexivity).
       assert (HI' : Inv ((msg_key m, Placeholder) :: st))
